@@ -160,6 +160,27 @@ def validate_witnesses(pid, witnesses, timeout=900):
     return r
 
 
+def _anchor_exists(relfile, qualname):
+    """Does src/<file> still define a function with that qualified name?"""
+    import ast
+    path = os.path.join(loader.REPO, relfile)
+    try:
+        with open(path) as fh:
+            tree = ast.parse(fh.read())
+    except (OSError, SyntaxError):
+        return False
+    parts = qualname.split('.')
+
+    def find(nodes, parts):
+        for n in nodes:
+            if isinstance(n, (ast.FunctionDef, ast.AsyncFunctionDef, ast.ClassDef)) and n.name == parts[0]:
+                if len(parts) == 1:
+                    return True
+                return find(n.body, parts[1:])
+        return False
+    return find(tree.body, parts)
+
+
 def load_known_findings():
     p = os.path.join(VERIF, 'known_findings.json')
     if not os.path.exists(p):
@@ -277,9 +298,15 @@ def _main2(a, pid, chk, mutations, seed, t0):
         if reached.get(name, 0) == 0 and not a.only:
             problems.append("obligation %s was never reached (vacuous harness)" % name)
     fnames = {(f['file'], f['function']) for f in functions}
+    anchors_gone = []
     for (f, fn) in getattr(chk, 'anchors', []):
         if (f, fn) not in fnames and not a.only:
-            problems.append("anchor %s:%s was not executed symbolically" % (f, fn))
+            # an anchor that no longer exists under that name (renamed / inlined by a refactor) is
+            # noted, not an alarm; one that exists but never ran means the harness went vacuous
+            if _anchor_exists(f, fn):
+                problems.append("anchor %s:%s was not executed symbolically" % (f, fn))
+            else:
+                anchors_gone.append('%s:%s' % (f, fn))
     for e in errors:
         problems.append("%s in %s: %s" % (e['kind'], e['config'], e['message']))
 
@@ -417,6 +444,7 @@ def _main2(a, pid, chk, mutations, seed, t0):
         'outside_claim': getattr(chk, 'outside_claim', []),
         'witness_validation': {k: v for k, v in val.items() if k != 'disagree'},
         'known_findings_seen': sorted(known_hits),
+        'anchors_no_longer_present': anchors_gone,
         'rule': 'one state = one feasible execution path of the real source under the stated bounds; '
                 'one transition = one solver verdict that extended or closed a path (branch feasibility decision, value '
                 'enumeration, obligation verdict)',
